@@ -67,12 +67,18 @@ def min_residual(T, Hm, Q, s, m, n, dt):
     return (Q[:, :mm] @ y).reshape(-1)
 
 
-def case_gmres(T, n, max_iters, variant=0, complex_=False, symbolic_upper=False, x0mode="none", cols="one", tol=1e-7, zero_at=None, via="function", tri=False):
+def case_gmres(T, n, max_iters, variant=0, complex_=False, symbolic_upper=False, x0mode="none", cols="one", tol=1e-7, zero_at=None, via="function", tri=False, tiny=False):
     dt = 'complex128' if complex_ else 'float64'
     Q = K.basis(T, n, variant, complex_, dt)
     Hm = K.mat(T, _H(T, n, variant, complex_, symbolic_upper, zero_at), dt)
     s = T.var("s", positive=True)
-    T.assume(s >= 1e-3)
+    if tiny:
+        # an initial residual far below any absolute threshold (the k-th restart of GMRES(m), iterative refinement): the iterate is still the
+        # minimiser, everything scales with s
+        T.assume(s >= 1e-14)
+        T.assume(s <= 1e-11)
+    else:
+        T.assume(s >= 1e-3)
     for j in range(n - 1):
         if zero_at != j:
             T.assume(Hm[j + 1, j].real >= 1e-3)
@@ -219,6 +225,8 @@ def cases(tier, seed):
         out.append((f"symtol:n{n}", case_gmres, dict(n=n, max_iters=n, tol="sym")))
         for z in range(0, n - 1):
             out.append((f"breakdown:n{n}z{z}", case_gmres, dict(n=n, max_iters=n, zero_at=z, variant=-1)))
+    for n, m, kw in ((2, 1, dict(symbolic_upper=True)), (2, 2, dict(symbolic_upper=True)), (3, 2, {}), (3, 3, {}), (3, 2, dict(via="inv"))):
+        out.append((f"tiny-residual:n{n}m{m}" + "".join(f":{k}" for k in kw), case_gmres, dict(n=n, max_iters=m, tiny=True, **kw)))
     # the Givens-rotation variant of the small least-squares problem (use_triangular=True; the library documents it for one right-hand side)
     for m in (1, 2):
         out.append((f"tri-sym2:m{m}", case_gmres, dict(n=2, max_iters=m, symbolic_upper=True, tri=True)))
